@@ -336,6 +336,29 @@ def apply_mutation(W, op):
         raise ValueError(op)
 
 
+class isolated_caches:
+    """the memoize dicts are global (one per decorated function): whatever the fresh world does to them -- entries it adds,
+    wholesale clearing by its own update_components / move_to / link changes -- must not reach the live world"""
+
+    def __enter__(self):
+        from glue.core.subset import SubsetState
+        self.saved = []
+        stack = [SubsetState]
+        while stack:
+            c = stack.pop()
+            cache = getattr(c.__dict__.get('to_mask'), '__memoize_cache', None)
+            if cache is not None:
+                self.saved.append((cache, dict(cache)))
+            stack.extend(c.__subclasses__())
+        return self
+
+    def __exit__(self, *a):
+        for cache, content in self.saved:
+            cache.clear()
+            cache.update(content)
+        return False
+
+
 MUTATIONS = ('update_components', 'update_values', 'move_to', 'setattr', 'add_link', 'remove_link', 'replace_state')
 
 
@@ -500,20 +523,22 @@ def run_history(R, case, ctab, check_fresh=True):
             if key in fresh_tab:
                 continue
             v = FW.views[di][vi][0]
-            o = outcome(lambda: fl.to_mask(FW.datas[di], v))
+            with isolated_caches():
+                o = outcome(lambda: fl.to_mask(FW.datas[di], v))
             if o[0] == 'ok' and (not isinstance(o[1], np.ndarray) or o[1].dtype != bool):
                 o = ('err', 'NotAMask')
             fresh_tab[key] = o
 
     def fresh_for(t, op):
         """evaluate request op on a fresh world at time t; also record the fresh leaf results the model needs"""
-        FW = fresh_world(case, t)
-        live_leaves = W.leaf_objects()
-        fresh_leaves = FW.leaf_objects()
-        if len(live_leaves) != len(fresh_leaves):
-            raise RuntimeError('fresh world has a different structure')
-        mp = {id(a): b for a, b in zip(live_leaves, fresh_leaves)}
-        o, freq = do_request(FW, op)
+        with isolated_caches():
+            FW = fresh_world(case, t)
+            live_leaves = W.leaf_objects()
+            fresh_leaves = FW.leaf_objects()
+            if len(live_leaves) != len(fresh_leaves):
+                raise RuntimeError('fresh world has a different structure')
+            mp = {id(a): b for a, b in zip(live_leaves, fresh_leaves)}
+            o, freq = do_request(FW, op)
         return o, FW, (lambda l: mp[id(l)])
 
     def classify(t, op, live, fresh, req):
@@ -560,7 +585,9 @@ def run_history(R, case, ctab, check_fresh=True):
             try:
                 apply_mutation(W, op)
             except Exception as e:
-                res['oracle'].append('op %d %r raised %s: %s' % (t, op, type(e).__name__, e))
+                # the mutation itself is not applicable (move_to with the wrong arity on a mixed composite, a flood fill whose
+                # start is outside the new shape, ...): not a question of staleness; the history ends here
+                res['truncated'] = 'op %d %r raised %s' % (t, op, type(e).__name__)
                 break
             for l in W.leaf_objects():
                 slot(l)
@@ -911,7 +938,7 @@ def stream_policy(R, ctab):
 
 # ---- histogram viewer layer state
 def stream_viewer(R):
-    n = R.pick(25, 200)
+    n = R.pick(150, 1500)
     done = 0
     try:
         from glue.viewers.histogram.viewer import SimpleHistogramViewer
@@ -919,6 +946,13 @@ def stream_viewer(R):
     except Exception as e:
         R.note('histogram viewer not importable headlessly: %s' % e)
         return
+
+    # rendering is matplotlib's business and costs a second per viewer: switch it off for this stream
+    from matplotlib.backends.backend_agg import FigureCanvasAgg
+    from matplotlib.backend_bases import FigureCanvasBase
+    saved_draw = (FigureCanvasAgg.draw, FigureCanvasBase.draw_idle)
+    FigureCanvasAgg.draw = lambda self, *a, **k: None
+    FigureCanvasBase.draw_idle = lambda self, *a, **k: None
 
     def build(seed, i, muts):
         from glue.core import Data, DataCollection
@@ -998,6 +1032,9 @@ def stream_viewer(R):
         done += 1
         if bad:
             R.fail('oracle', {'stream': 'viewer', 'seed': R.seed, 'i': i, 'mutations': [list(m) for m in applied]}, bad)
+    FigureCanvasAgg.draw, FigureCanvasBase.draw_idle = saved_draw
+    import matplotlib.pyplot as plt
+    plt.close('all')
     R.stream('viewer', cases=done, exhaustive=False,
              bound='headless SimpleHistogramViewer with a data layer and a subset layer: 2-6 of {update_components, subset state replaced, n_bin, x_att} with the layer '
                    'histograms read in between, compared with a viewer built from scratch on the mutated objects')
